@@ -32,6 +32,10 @@ CLAIMED = {
             "tuple/state round trips, unpickle∘reduce = id whenever names resolve (else UndefinedUnit, never another unit; exactly the prefixed names get registered), exception round trip for every class of the regenerated table (finite vm_compute theorem + general theorem under a decidable guard) and cross-registry refusal are Coq theorems; K runs protocols 0-5, every magnitude type, every exception class, fresh-process unpickling histories, registry pairs (fresh/deep-copied/application/lazy) and cross-registry operators on the real code.",
             TB + " pickle/copy/object identity are CPython's: deepcopy independence and LazyRegistry equivalence are partial theorems, covered beyond that by K only. F17, F36-F38 were repaired by fix: commits.",
             "DESIGN.md §4 C18"),
+    "C20": ("Finite Coq theorem (vm_compute over an independently curated standards table, lifted with forallb_forall) about the registry regenerated from the definition files (T1) + general soundness theorem of the row checker + exact correspondence with the real Fraction/float registries",
+            "data/standards.tsv (287 unit/constant rows + 32 prefixes, written from SI Brochure / NIST SP 811 / HB 44 / IAU / CODATA 2022, with sources) is compiled to Coq; row_ok is proved sound for every registry (a passed row means exact factor, dimension, symbol, offset), and every row is proved to hold in the model registry regenerated from /repo on each run; K asks the real Fraction registry (exact) and float registry (4 ulp) for every row, all spellings in thorough. A changed constant breaks the theorem; the search names the failing rows with the pint call, expected and observed values.",
+            TB + " Correctness of the curated table is the builder's (rows carry their source); 13 rows whose definition goes through a square root are checked in Coq for dimension/symbol only and numerically against pint. F75-F79 (quarter, Réaumur, parsec, missing defining constants, two symbols) were repaired by fix: commits.",
+            "DESIGN.md §4 C20"),
 }
 PENDING = "check not built yet in this round (planned, see DESIGN.md §4); not claimed until its model, theorems and correspondence exist"
 
